@@ -1,13 +1,16 @@
 SPECIFICATION SSpec
 CONSTANTS
-  Members = {"p", "q", "r"}
-  Vals = {1, 2, 3}
-  HwMax = 2
+  Members = {"p", "q"}
+  Vals = {1, 2}
+  HwMax = 1
   HwModes = {"clip", "refuse"}
+  Excs = {"other"}
 INVARIANT TypeOK
+INVARIANT AgreeShown
 INVARIANT Agree
 PROPERTY WriteLands
 PROPERTY RefusedNotStored
 PROPERTY ReadShowsHw
 PROPERTY CacheOpsKeepHw
+PROPERTY FailedWriteOnlyAsked
 CHECK_DEADLOCK FALSE
